@@ -14,6 +14,7 @@ pub mod c15;
 pub mod c16;
 pub mod c14;
 pub mod c05;
+pub mod c11;
 
 pub fn meta(id: &str, tier: &str) -> Option<CheckMeta> {
     match id {
@@ -30,6 +31,7 @@ pub fn meta(id: &str, tier: &str) -> Option<CheckMeta> {
         "C16" => Some(c16::meta(tier)),
         "C14" => Some(c14::meta(tier)),
         "C05" => Some(c05::meta(tier)),
+        "C11" => Some(c11::meta(tier)),
         _ => None,
     }
 }
@@ -63,6 +65,7 @@ pub fn worker(ctx: &Ctx, res: &mut ShardResult) {
         "C16" => c16::worker(ctx, res),
         "C14" => c14::worker(ctx, res),
         "C05" => c05::worker(ctx, res),
+        "C11" => c11::worker(ctx, res),
         _ => panic!("unknown check"),
     }
 }
@@ -86,6 +89,7 @@ pub fn replay(path: &str) -> i32 {
         "C16" => c16::replay(&v["case"]),
         "C14" => c14::replay(&v["case"]),
         "C05" => c05::replay(&v["case"]),
+        "C11" => c11::replay(&v["case"]),
         _ => vec![format!("no replayer for {}", id)],
     };
     let _ = json!(null);
